@@ -116,11 +116,30 @@ def f_frag( ctx ):
     else:
         res.bad( src, q, 'remainder of the byte offset: %s' % [ norm_text( d ) for d in ld.defs.get( OFFREM, [] ) ],
                  'the bytes into the first element must be offset - ( offset // size ) * size (offset % size); otherwise the next fragment starts at the wrong element' )
-    sz = ld.defs.get( SIZ, [] )
-    if sz and all( pmatch( d, 'attribute.parser.struct_calcsize' ) is not None for d in sz ):
-        res.ok( src, fn, 'element size = attribute.parser.struct_calcsize' )
+    # the element size: the tag's own for reads; for the write services it may be re-bound - under a test that names exactly the write
+    # services - to the size of the ( basic ) type the request transmits: its byte offset counts elements of THAT type
+    szs = [ a for a in walk_no_nested( fn ) if isinstance( a, ast.Assign ) and any( dotted( t ) == SIZ for t in a.targets ) ]
+    own = [ a for a in szs if pmatch( a.value, 'attribute.parser.struct_calcsize' ) is not None and src.parent.get( a ) is fn ]
+    wr = [ a for a in szs if a not in own ]
+    def write_sized( a ):
+        g = src.parent.get( a )
+        return ( isinstance( g, ast.If ) and a in g.body and { 'WR_TAG_RPY', 'WR_FRG_RPY' } <= attrs_in( g.test ) and not { 'RD_TAG_RPY', 'RD_FRG_RPY' } & attrs_in( g.test )
+                 and pmatch( a.value, 'typed_data.datasize( data[context].type )' ) is not None and a.lineno > own[0].lineno and a.lineno < q.lineno )
+    if len( own ) == 1 and own[0].lineno < q.lineno and all( write_sized( a ) for a in wr ):
+        res.ok( src, own[0], 'element size = attribute.parser.struct_calcsize' + ( '; for the write services: the size of the type transmitted' if wr else '' ))
     else:
-        res.bad( src, fn, 'element size %s' % [ norm_text( d ) for d in sz ], 'byte offsets must be converted with the element size of the tag\'s own type' )
+        res.bad( src, fn, 'element size %s' % [ norm_text( a.value ) for a in szs ], 'byte offsets of reads must be converted with the element size of the tag\'s own type ( of writes: with the tag\'s or the transmitted type\'s )' )
+    # a write does not begin inside an element: its remainder is asserted 0 on the write branch ( it is silently dropped otherwise: the data
+    # lands on the element the offset rounds down to and the request is acknowledged )
+    wbr = [ i for i in walk_no_nested( fn ) if isinstance( i, ast.If ) and { 'RD_TAG_RPY', 'RD_FRG_RPY' } <= attrs_in( i.test ) and i.orelse and src.parent.get( i ) is fn ]
+    if not wbr:
+        raise AnalysisError( 'reply_elements: read / write branch not found' )
+    wz = [ a for b in wbr[0].orelse for a in ast.walk( b ) if isinstance( a, ast.Assert ) and ( pmatch( a.test, '%s == 0' % OFFREM ) is not None or pmatch( a.test, 'not %s' % OFFREM ) is not None ) ]
+    if wz:
+        res.ok( src, wz[0], 'a write is refused unless its byte offset falls on an element boundary' )
+    else:
+        res.bad( src, wbr[0], 'the write branch never looks at the remainder of the byte offset ( %s )' % OFFREM,
+                 'a Write Tag Fragmented that begins inside an element is acknowledged and stored at the element the offset rounds down to - the same offset on a read is refused' )
     # the offset applies to the fragmented services only, default 0
     offd = ld.defs.get( OFF, [] )
     if offd and any( try_fold( d ) == 0 for d in offd ) and any( pmatch( d, "data[context].get( 'offset' ) or 0" ) is not None for d in offd ):
